@@ -31,8 +31,8 @@ def hist_of(state):
     return streams, hist
 
 
-def scen(run, name, streams, hist, sync, rotate_at=0, truncate=False):
-    return dict(run=run, name=name, sync=sync, streams=streams, hist=hist, rotate_at=rotate_at, truncate=truncate)
+def scen(run, name, streams, hist, sync, rotate_at=0, truncate=False, recycle=0):
+    return dict(run=run, name=name, sync=sync, streams=streams, hist=hist, rotate_at=rotate_at, truncate=truncate, recycle=recycle)
 
 
 def run(ctx):
@@ -101,6 +101,25 @@ def run(ctx):
             hist += [["act", j + 1], ["deliver", j + 1], ["commit", j + 1]]
         hist += [["open", 0]]
         scs.append(scen(k, "truncate-inflight-%d" % k, streams, hist, True, truncate=True))
+        k += 1
+    # truncation while the LAST line read (and everything before it) is still unacknowledged: its acknowledgement, arriving after
+    # the truncation was noticed, must not move the offsets of the restarted file (single stream, so D4 does not apply)
+    for i in range(6 if thorough else 2):
+        n1 = ctx.rng.randint(1, 3)
+        n2 = ctx.rng.randint(1, 3)
+        streams = ["a"] * (n1 + n2)
+        hist = [["append", j + 1] for j in range(n1)] + [["truncate_now", 500]] + [["append", n1 + j + 1] for j in range(n2)]
+        if ctx.rng.random() < 0.5:      # the new content is read (parked in the action) before the stale acknowledgements arrive
+            hist += [["save", 0], ["save", 0]]
+        hist += [["open", 0]]
+        scs.append(scen(k, "truncate-last-inflight-%d" % k, streams, hist, True, truncate=True))
+        k += 1
+    # a new file that appears after the restart with the inode number of a file removed while down (offsets are loaded only for
+    # files found at start: the new file must be read from its beginning)
+    for i in range(4 if thorough else 2):
+        n1 = ctx.rng.randint(1, 3)
+        n2 = n1 + ctx.rng.randint(2, 4)        # the new file is longer than the stale offset
+        scs.append(scen(k, "recycled-inode-%d" % k, ["a"] * (n1 + n2), [], True, recycle=n1))
         k += 1
     inp = os.path.join(ctx.scratch, "c03_in.json")
     out = os.path.join(ctx.scratch, "c03_out.json")
